@@ -59,7 +59,7 @@ func layoutDims(l pdfw.Layout, o pdfw.DocOpts, revs int) map[string]string {
 		"depth": fmt.Sprint(o.TreeDepth), "inherit": o.Inherit, "override": fmt.Sprint(o.Override), "revs": fmt.Sprint(revs),
 		"xrefpred": fmt.Sprint(l.XRefPredictor), "extends": fmt.Sprint(l.ObjStmExtends && l.ObjStm != "none"),
 		"comments": fmt.Sprint(l.Comments), "quotes": fmt.Sprint(l.Quotes), "tjkern": fmt.Sprint(l.TJKern), "forms": fmt.Sprint(l.Forms), "boxind": fmt.Sprint(l.BoxIndirect),
-		"fontrot": fmt.Sprint(l.FontNameRot), "fontsdirect": fmt.Sprint(l.FontsDirect), "inlineimg": fmt.Sprint(l.InlineImages), "tmscale": fmt.Sprint(l.TmScale), "ghostfont": fmt.Sprint(l.GhostFont),
+		"fontrot": fmt.Sprint(l.FontNameRot), "fontsdirect": fmt.Sprint(l.FontsDirect), "inlineimg": fmt.Sprint(l.InlineImages), "tmscale": fmt.Sprint(l.TmScale), "ghostfont": fmt.Sprint(l.GhostFont), "ghostres": fmt.Sprint(l.GhostResCategory),
 	}
 }
 
@@ -81,7 +81,7 @@ func makeCase(c *fw.Ctx, id string) *Case {
 	case "dim":
 		// vary exactly one dimension away from the baseline
 		full := pdfw.RandomLayout(r, 1)
-		dims := []string{"eol", "tight", "xref", "objstm", "len", "filter", "split", "splitnows", "big", "numbering", "shuffle", "resind", "depth", "inherit", "override", "revs", "contarr", "xrefpred", "extends", "comments", "quotes", "tjkern", "forms", "boxind", "fontrot", "fontsdirect", "inlineimg", "formrot", "tmscale", "ghostfont"}
+		dims := []string{"eol", "tight", "xref", "objstm", "len", "filter", "split", "splitnows", "big", "numbering", "shuffle", "resind", "depth", "inherit", "override", "revs", "contarr", "xrefpred", "extends", "comments", "quotes", "tjkern", "forms", "boxind", "fontrot", "fontsdirect", "inlineimg", "formrot", "tmscale", "ghostfont", "ghostres"}
 		switch d := dims[idx%len(dims)]; d {
 		case "eol":
 			cs.Lay.EOL = []string{"\r\n", "\r"}[r.Intn(2)]
@@ -166,6 +166,8 @@ func makeCase(c *fw.Ctx, id string) *Case {
 		case "ghostfont":
 			cs.Lay.GhostFont = true
 			cs.Opts.MaxFonts = 4
+		case "ghostres":
+			cs.Lay.GhostResCategory = true
 		case "extends":
 			cs.Lay.XRef = []string{"stream"}
 			cs.Lay.ObjStm = "all"
